@@ -68,6 +68,14 @@ peg::parser! {
                         String::from("(?!)")
                     }
                 } else {
+                    // A dash that is a member in its own right must not pair up with a neighbor
+                    // into one of the regex engine's set operators (`--`) or ranges.
+                    for member in members.iter_mut().skip(1) {
+                        if member == "-" {
+                            *member = String::from(r"\-");
+                        }
+                    }
+
                     if invert.is_some() {
                         members.insert(0, String::from("^"));
                     }
@@ -124,6 +132,9 @@ peg::parser! {
 
                 // Evaluate if the range is valid.
                 if from_c <= to_c {
+                    // N.B. An endpoint that is itself a dash would otherwise read as `--`.
+                    let from_str = if from_c == '-' { String::from(r"\-") } else { from_str };
+                    let to_str = if to_c == '-' { String::from(r"\-") } else { to_str };
                     Some(std::format!("{from_str}-{to_str}"))
                 } else {
                     None
@@ -131,10 +142,19 @@ peg::parser! {
             }
 
         rule single_char_bracket_member() -> (String, char) =
-            // Preserve escaped characters as-is.
-            ['\\'] [c] { (std::format!("\\{c}"), c) } /
+            // Preserve escaped characters as-is -- except letters and digits, which the regex
+            // engine would take for a class or control character (`\d`, `\w`, `\a`).
+            ['\\'] [c] {
+                if c.is_ascii_alphanumeric() {
+                    (c.to_string(), c)
+                } else {
+                    (std::format!("\\{c}"), c)
+                }
+            } /
             // Escape opening bracket.
             ['['] { (String::from(r"\["), '[') } /
+            // `&&` and `~~` are set operators to the regex engine; in a pattern they are members.
+            [c if c == '&' || c == '~'] { (std::format!("\\{c}"), c) } /
             // Any other character except closing bracket gets added as-is.
             [c if c != ']'] { (c.to_string(), c) }
 
